@@ -83,7 +83,7 @@ def cybuild_sha(text):
 
 
 def run(ctx):
-    nmods = 1 if ctx.quick else 25
+    nmods = 1 if ctx.quick else 12
     depth = 3 if ctx.quick else 4
     ctx.pmap(_shard, [(ctx.seed, s, nmods, depth) for s in range(16)])
     ctx.counters["gen_phase_s"] = int(__import__("time").time() - ctx.t0)
